@@ -820,8 +820,6 @@ pub proof fn lemma_detach_facts<T>(s: Seq<Node<T>>, w: Ranks, f: int, l: int)
         ranked(s, w),
         0 <= f < s.len(),
         0 <= l < s.len(),
-        !s[f].stamp.removed(),
-        !s[l].stamp.removed(),
         s[f].parent == s[l].parent,
     ensures
         detach_facts(s, f, l),
@@ -854,5 +852,133 @@ pub proof fn lemma_detach_facts<T>(s: Seq<Node<T>>, w: Ranks, f: int, l: int)
             lemma_id_eq(s[y].parent->0, p->0);
         }
     }
+}
+
+/// exact effect of `detach(x)` (C03): x becomes a parentless, sibling-less root, the gap it
+/// leaves is closed, and nothing else changes
+pub open spec fn detach_post<T>(o: Seq<Node<T>>, n: Seq<Node<T>>, x: int) -> bool {
+    let p = o[x].parent;
+    let a = o[x].previous_sibling;
+    let b = o[x].next_sibling;
+    &&& n.len() == o.len()
+    &&& forall|i: int|
+        0 <= i < o.len() ==> {
+            &&& (#[trigger] n[i]).stamp == o[i].stamp && n[i].data == o[i].data
+            &&& n[i].parent == (if i == x {
+                None
+            } else {
+                o[i].parent
+            })
+            &&& n[i].previous_sibling == (if i == x {
+                None
+            } else if b is Some && i == b->0.idx() {
+                a
+            } else {
+                o[i].previous_sibling
+            })
+            &&& n[i].next_sibling == (if i == x {
+                None
+            } else if a is Some && i == a->0.idx() {
+                b
+            } else {
+                o[i].next_sibling
+            })
+            &&& n[i].first_child == (if p is Some && i == p->0.idx() && a is None {
+                b
+            } else {
+                o[i].first_child
+            })
+            &&& n[i].last_child == (if p is Some && i == p->0.idx() && b is None {
+                a
+            } else {
+                o[i].last_child
+            })
+        }
+}
+
+pub proof fn lemma_neighbors_distinct<T>(s: Seq<Node<T>>, w: Ranks, x: int)
+    requires
+        links_ok(s),
+        ranked(s, w),
+        0 <= x < s.len(),
+    ensures
+        s[x].previous_sibling is Some ==> s[x].previous_sibling->0.idx() != x,
+        s[x].next_sibling is Some ==> s[x].next_sibling->0.idx() != x,
+        s[x].previous_sibling is Some && s[x].next_sibling is Some ==> s[x].previous_sibling->0.idx() != s[x].next_sibling->0.idx(),
+{
+    reveal(node_ok);
+    assert(node_ok(s, x));
+    assert(ranked_at(s, w, x));
+    if s[x].previous_sibling is Some {
+        let y = s[x].previous_sibling->0.idx();
+        assert(node_ok(s, y));
+        assert(ranked_at(s, w, y));
+    }
+}
+
+/// C01/C02 across detach: the same rank witness keeps working
+#[verifier::rlimit(200)]
+pub proof fn lemma_detach_wf<T>(o: Seq<Node<T>>, n: Seq<Node<T>>, x: int, w: Ranks)
+    requires
+        links_ok(o),
+        ranked(o, w),
+        0 <= x < o.len(),
+        detach_post(o, n, x),
+    ensures
+        links_ok(n),
+        ranked(n, w),
+{
+    reveal(node_ok);
+    assert(node_ok(o, x));
+    assert(ranked_at(o, w, x));
+    if o[x].previous_sibling is Some {
+        assert(node_ok(o, o[x].previous_sibling->0.idx()));
+        assert(ranked_at(o, w, o[x].previous_sibling->0.idx()));
+    }
+    assert forall|i: int| 0 <= i < n.len() implies #[trigger] ranked_at(n, w, i) by {
+        assert(ranked_at(o, w, i));
+        assert(node_ok(o, i));
+    }
+    assert forall|i: int| 0 <= i < n.len() implies #[trigger] node_ok(n, i) by {
+        assert(node_ok(o, i));
+        if o[i].parent is Some {
+            assert(node_ok(o, o[i].parent->0.idx()));
+        }
+        if o[i].previous_sibling is Some {
+            assert(node_ok(o, o[i].previous_sibling->0.idx()));
+        }
+        if o[i].next_sibling is Some {
+            assert(node_ok(o, o[i].next_sibling->0.idx()));
+        }
+        if o[i].first_child is Some {
+            assert(node_ok(o, o[i].first_child->0.idx()));
+        }
+        if o[i].last_child is Some {
+            assert(node_ok(o, o[i].last_child->0.idx()));
+        }
+        if n[i].first_child is Some {
+            assert(node_ok(o, n[i].first_child->0.idx()));
+        }
+        if n[i].last_child is Some {
+            assert(node_ok(o, n[i].last_child->0.idx()));
+        }
+    }
+}
+
+/// a pure relinking step keeps the payload-side invariants
+pub proof fn lemma_relink_wf<T>(o: Arena<T>, n: Arena<T>)
+    requires
+        o.wf(),
+        links_ok(n.nodes@),
+        n.acyclic(),
+        payload_frame(o.nodes@, n.nodes@),
+        n.first_free_slot == o.first_free_slot,
+        n.last_free_slot == o.last_free_slot,
+    ensures
+        n.wf(),
+{
+    lemma_payload_frame_wf(o.nodes@, n.nodes@, o.first_free_slot, o.last_free_slot);
+    let fl = choose|fl: Seq<int>| free_list(o.nodes@, o.first_free_slot, o.last_free_slot, fl);
+    assert(free_list(n.nodes@, n.first_free_slot, n.last_free_slot, fl));
 }
 
